@@ -97,10 +97,9 @@ DAfterOK(e) ==
       [] e.op = "del_cells" ->
             AdoptInputs([D EXCEPT !.cells[e.s] = Drop(@, {e.c})], e)
       [] e.op = "rename_cells" ->
-            \* the cells object (and the copies derived from it) live on under the new name
-            LET Rn(v) == IF v[1] = "ce" /\ v[3] = <<>> /\ v[4] = e.c /\ v[2] \in D.sp
-                            /\ e.c \in ENames(D, v[2], "cells")
-                            /\ Definer(D, v[2], "cells", e.c) = e.s
+            \* the defined cells object lives on under the new name; the copies sub
+            \* spaces derived from it are deleted and derived anew (handles to them die)
+            LET Rn(v) == IF v[1] = "ce" /\ v[3] = <<>> /\ v[4] = e.c /\ v[2] = e.s
                          THEN CeObj(v[2], <<>>, e.c2) ELSE v IN
             AdoptInputs([D EXCEPT !.cells[e.s] = Upd(Drop(@, {e.c}), e.c2, D.cells[e.s][e.c]),
                   !.refs  = [s \in DOMAIN @ |-> [n \in DOMAIN @[s] |-> [@[s][n] EXCEPT !.v = Rn(@)]]],
